@@ -146,9 +146,11 @@ def const_int(n):
     """compile-time integer value of a node, or None"""
     if n is None:
         return None
-    if "val" in n and isinstance(n["val"], (int, bool)) and n["k"] in (
-            "IntegerLiteral", "CXXBoolLiteralExpr", "CharacterLiteral"):
-        return int(n["val"])
+    if "val" in n and n["k"] in ("IntegerLiteral", "CXXBoolLiteralExpr", "CharacterLiteral"):
+        try:
+            return int(n["val"])
+        except (TypeError, ValueError):
+            return None
     if "cval" in n:
         v = n["cval"]
         return int(v)
